@@ -4397,3 +4397,75 @@ func ruleLookupMissSkipsOnlyTheItem(r *Report, rule string, pkgs ...string) {
 		r.InfoOb(rule, "no-lookup-miss-branch-in-range-loops", 0, "no `if !ok {...}` on a map lookup inside a range loop in "+strings.Join(pkgs, ", "))
 	}
 }
+
+// rulePerSegmentFieldsInvalidatedOnSwitch (K5): DocValueReader keeps state that
+// is computed for the segment it is currently positioned on (fields assigned
+// from a call that takes dvr.currSegmentIndex).  The branch that moves the
+// reader to another segment (the one that stores currSegmentIndex) must
+// re-initialise every such field; otherwise the next segment is read with the
+// previous segment's state (e.g. the list of fields to serve from the
+// un-inverted cache: values are then visited twice and facet counts double).
+func rulePerSegmentFieldsInvalidatedOnSwitch(r *Report, rule string) {
+	p := r.P
+	fi := p.MustFunc("index/scorch.(*DocValueReader).VisitDocValues")
+	r.Fn(fi)
+	info := fi.Pkg.TypesInfo
+	g := buildCFG(info, fi.Decl.Body)
+	allow := map[string]string{
+		"dvs": "the DocVisitState carries the segment it belongs to and is re-initialised by documentVisitFieldTermsOnSegment/VisitDocValues of the segment when that differs",
+	}
+	// the switch: the store to currSegmentIndex
+	sw := storesToField(info, fi.Decl.Body, "DocValueReader", "currSegmentIndex")
+	if len(sw) != 1 {
+		undecidedf("%s: expected one store to currSegmentIndex, found %d", fi.Name, len(sw))
+	}
+	// per-segment fields: assigned from a call that takes currSegmentIndex
+	per := map[string]token.Pos{}
+	ast.Inspect(fi.Decl.Body, func(x ast.Node) bool {
+		as, ok := x.(*ast.AssignStmt)
+		if !ok || len(as.Rhs) != 1 {
+			return true
+		}
+		c, ok := as.Rhs[0].(*ast.CallExpr)
+		if !ok {
+			return true
+		}
+		takes := false
+		for _, a := range c.Args {
+			if isField(info, a, "DocValueReader", "currSegmentIndex") {
+				takes = true
+			}
+		}
+		if !takes {
+			return true
+		}
+		for _, l := range as.Lhs {
+			if fs, ok := asFieldSel(info, l); ok && fs.Owner == "DocValueReader" {
+				per[fs.Field.Name()] = l.Pos()
+			}
+		}
+		return true
+	})
+	if len(per) == 0 {
+		undecidedf("%s: no per-segment field found", fi.Name)
+	}
+	var names []string
+	for f := range per {
+		names = append(names, f)
+	}
+	sort.Strings(names)
+	for _, f := range names {
+		if why, ok := allow[f]; ok {
+			r.Allow(rule, "DocValueReader."+f+"/invalidated-on-segment-switch", per[f], why)
+			continue
+		}
+		ok := false
+		for _, st := range storesToField(info, fi.Decl.Body, "DocValueReader", f) {
+			// in the same branch as the switch (same guards) and not the per-segment computation itself
+			if st.Stmt != nil && factsString(g.GuardsOf(st.Stmt)) == factsString(g.GuardsOf(sw[0].Stmt)) && len(g.GuardsOf(st.Stmt)) > 0 {
+				ok = true
+			}
+		}
+		r.Ob(rule, "DocValueReader."+f+"/invalidated-on-segment-switch", per[f], ok, "field "+f+" is computed for the current segment (assigned from a call taking currSegmentIndex) but is not re-initialised in the branch that switches segments: the next segment is read with the previous segment's "+f)
+	}
+}
